@@ -354,6 +354,55 @@ pub async fn run(server_bin: &str, seed: u64, extra: usize, out: &str, mode: &st
             }
         }
     }
+    // ---- ownership transfer by the server admin (direct oracle): a database with content, audit log and backup is renamed to
+    // ANOTHER owner; afterwards none of its files may remain in the previous owner's directory, every file that appeared lies in
+    // the new owner's directory, the transferred database keeps content, audit and a restorable backup, and deleting it removes
+    // every one of its files
+    if srv.alive() {
+        for new_name in ["moved", "src", "ok.name"] {
+            let ready = match cx.cleanup().await { Ok(()) => cx.setup(true).await, Err(e) => Err(e) };
+            if let Err(e) = ready { oracle.push(format!("valid_setup_failed transfer new_name={new_name} :: {e}")); break; }
+            let s0 = cx.snap();
+            cx.as_user(0);
+            let code = match cx.api.admin_db_rename("user1", "src", "user2", new_name).await { Ok(c) => c, Err(e) => e.status };
+            let s1 = cx.snap();
+            let (new_t, gone_t, changed_t) = diff(&s0, &s1);
+            *stats.entry("op_transfer".into()).or_insert(0) += 1;
+            *stats.entry(format!("code_{code}")).or_insert(0) += 1;
+            trig.insert(format!("{new_name}|transfer"));
+            let desc = format!("op=transfer user1/src -> user2/{new_name} code={code} new=[{}] gone=[{}] changed=[{}]",
+                new_t.iter().map(|x| esc(x)).collect::<Vec<_>>().join(" "), gone_t.iter().map(|x| esc(x)).collect::<Vec<_>>().join(" "), changed_t.iter().map(|x| esc(x)).collect::<Vec<_>>().join(" "));
+            if !(200..300).contains(&code) { oracle.push(format!("valid_transfer_rejected {desc}")); continue; }
+            let rel = |n: &str| -> Vec<String> { vec![n.to_string(), format!(".{n}"), format!("backups/{n}.bak"), format!("backups/{n}.log"), format!("audit/{n}.log")] };
+            let mut left: Vec<String> = vec![];
+            for n in ["src", new_name] {
+                for f in rel(n) { let p = format!("data/user1/{f}"); if s1.contains_key(&p) { left.push(p); } }
+            }
+            left.sort(); left.dedup();
+            if !left.is_empty() { oracle.push(format!("transfer_left_file_in_old_owner_dir {desc} left=[{}]", left.iter().map(|x| esc(x)).collect::<Vec<_>>().join(" "))); }
+            let stray: Vec<&String> = new_t.iter().filter(|p| !p.starts_with("data/user2/")).collect();
+            if !stray.is_empty() { oracle.push(format!("file_outside_owner_dir {desc} outside=[{}]", stray.iter().map(|x| esc(x)).collect::<Vec<_>>().join(" "))); }
+            match cx.content(2, "user2", new_name).await {
+                Ok((n, a)) => if n != vec!["5"] || a != 1 { oracle.push(format!("transfer_changed_database {desc} :: content {n:?} audit {a}")); },
+                Err(e) => oracle.push(format!("transfer_changed_database {desc} :: {e}")),
+            }
+            cx.as_user(2);
+            match cx.api.db_restore("user2", new_name).await {
+                Ok(_) => match cx.content(2, "user2", new_name).await {
+                    Ok((n, a)) => if n != vec!["5"] || a != 1 { oracle.push(format!("transfer_lost_backup {desc} :: after restore content {n:?} audit {a}")); },
+                    Err(e) => oracle.push(format!("transfer_lost_backup {desc} :: after restore {e}")),
+                },
+                Err(e) => oracle.push(format!("transfer_lost_backup {desc} :: restore failed {} {}", e.status, e.description)),
+            }
+            cx.as_user(2);
+            let _ = cx.api.db_delete("user2", new_name).await;
+            let s2 = cx.snap();
+            let mut rest: Vec<String> = vec![];
+            for owner in ["user1", "user2"] { for f in rel(new_name) { let p = format!("data/{owner}/{f}"); if s2.contains_key(&p) && !(new_name == "src" && false) { rest.push(p); } } }
+            if !rest.is_empty() { oracle.push(format!("delete_left_files {desc} left=[{}]", rest.join(" "))); }
+            if !srv.alive() { oracle.push(format!("server_crashed {desc}")); break; }
+        }
+    }
     let _ = cx.cleanup().await;
     let _ = hx(0);
     write_lines(&format!("{out}/cases.txt"), &cases);
